@@ -1,9 +1,71 @@
-(** C05 — secure floats. (statements only; proofs in theories/Flt.v) *)
-From Coq Require Import ZArith List.
+(** C05 — secure floating-point arithmetic approximates float arithmetic.
+    Only statements; model and proofs are in theories/Flt.v.
+    A secure float is a pair (S, e) with value  fval f (S, e) = S * 2^(e - f),  f = s-1 the fraction
+    length of the significand type SecFxp(s+1, s-1);  u = 2^-f = pow2 (-f).  Truncation masks
+    (runtime.trunc) are the tapes r, universally quantified over their whole range 0 <= r < 2^f.
+    Proved constants: 1u (constructor), 4u (multiplication) — smaller than the property's 2u / 16u.
+    MISSING (not proved, so absent): normalisation invariant and error bound for flt_add / flt_sub,
+    cmp_exact_outside_band, div_bound (reciprocal not modelled).  Addition, subtraction and the six
+    comparisons are covered by the correspondence run + implementation oracle only. *)
+From Coq Require Import ZArith List QArith Qabs.
 Require Import MPyC.Flt.
 Import ListNotations.
 Local Open Scope Z_scope.
 
-Theorem C05_tmp : flt_add_all 10 (839, -13) (0,0) = [(0, -10); (0, -10); (512, -9); (512, -9)].
-Proof. vm_compute. reflexivity. Qed.
-Print Assumptions C05_tmp.
+(** flt_norm_inv — the normalisation invariant  S = 0 \/ 2^(f-1) <= |S| <= 2^f  (both ends occur)
+    is established by the constructor and preserved by negation and by multiplication, for every
+    tape.  [partial: the addition case is not proved] *)
+Theorem C05_flt_norm_inv_input_partial : forall f M q, 1 <= f -> norm f (fst (flt_input f M q)).
+Proof. exact flt_norm_inv_input. Qed.
+Print Assumptions C05_flt_norm_inv_input_partial.
+
+Theorem C05_flt_norm_inv_mul_partial : forall f x y r, 2 <= f -> 0 <= r < 2 ^ f ->
+  norm f (fst x) -> norm f (fst y) -> norm f (fst (flt_mul f x y r)).
+Proof. exact flt_norm_inv_mul. Qed.
+Print Assumptions C05_flt_norm_inv_mul_partial.
+
+Theorem C05_flt_norm_inv_neg_partial : forall f x, norm f (fst x) -> norm f (fst (flt_neg x)).
+Proof. exact flt_norm_inv_neg. Qed.
+Print Assumptions C05_flt_norm_inv_neg_partial.
+
+(** io_bound — the constructor applied to x = M * 2^q (every Python int/float) is within u|x| of x;
+    _output returns the exact value, with the exponent of a zero masked to 0. *)
+Theorem C05_io_bound : forall f M q, 1 <= f ->
+  (Qabs (fval f (flt_input f M q) - inject_Z M * pow2 q)
+   <= inject_Z 1 * pow2 (- f) * Qabs (inject_Z M * pow2 q))%Q.
+Proof. exact io_bound. Qed.
+Print Assumptions C05_io_bound.
+
+Theorem C05_output_exact_and_masked : forall f x,
+  (fval f (flt_output x) == fval f x)%Q /\ (fst (flt_output x) = 0 -> snd (flt_output x) = 0) /\
+  fst (flt_output x) = fst x.
+Proof. exact flt_output_spec. Qed.
+Print Assumptions C05_output_exact_and_masked.
+
+(** mul_bound — for normalised operands and EVERY truncation tape the product is within 4u of exact. *)
+Theorem C05_mul_bound : forall f x y r, 2 <= f -> 0 <= r < 2 ^ f -> norm f (fst x) -> norm f (fst y) ->
+  (Qabs (fval f (flt_mul f x y r) - fval f x * fval f y)
+   <= inject_Z 4 * pow2 (- f) * Qabs (fval f x * fval f y))%Q.
+Proof. exact mul_bound. Qed.
+Print Assumptions C05_mul_bound.
+
+(** add_zero_refuted — the unrestricted bound for + is FALSE of the faithful model (finding F-C05):
+    SecFlt(16) (f = 10), x = secflt(1e-4) = (839, -13), y = secflt(0.0) = (0, 0): for every tape the
+    result differs from x + y by more than 16 u max(|x|,|y|) (scaled by 2^23 * 2^f to integers). *)
+Theorem C05_add_zero_refuted :
+  exists f x y, norm f (fst x) /\ norm f (fst y) /\ x = flt_input f 839 (-23) /\ y = flt_input f 0 0 /\
+    forall r1 r2, In r1 (tapes f) -> In r2 (tapes f) ->
+      let z := flt_add f x y r1 r2 in
+      Z.abs (fst z * 2 ^ (snd z - f + 23) - 839) * 2 ^ f > 16 * 839.
+Proof. exact add_zero_refuted. Qed.
+Print Assumptions C05_add_zero_refuted.
+
+(** Non-vacuity: SecFlt(16), 1.5 * (-1.25): operands normalised, tape in range; both tape extremes. *)
+Example C05_nonvacuous :
+  let f := 10 in let x := flt_input f 3 (-1) in let y := flt_input f (-5) (-2) in
+  x = (768, 1) /\ y = (-640, 1) /\ 2 <= f /\ 0 <= 2 ^ f - 1 < 2 ^ f /\
+  (2 ^ (f - 1) <=? Z.abs (fst x)) && (Z.abs (fst x) <=? 2 ^ f) = true /\
+  (2 ^ (f - 1) <=? Z.abs (fst y)) && (Z.abs (fst y) <=? 2 ^ f) = true /\
+  flt_mul_all f x y = [(-960, 1); (-960, 1)] /\
+  flt_input f 1 (-4) = (1024, -4) /\ flt_output (0, -8) = (0, 0).
+Proof. vm_compute. repeat split; intro; discriminate. Qed.
